@@ -21,7 +21,7 @@
 EXTENDS Integers, Sequences
 
 CONSTANTS CODE_BITS, SYM_BITS, UINT_BITS, WINDOW, BITRES,
-          PATCH_FIX      \* FALSE: ec_enc_patch_initial_bits as in the library; TRUE: with the proposed repair
+          PATCH_FIX      \* TRUE: ec_enc_patch_initial_bits as in the library (commit 85f44ce1); FALSE: before that repair
 
 Pow2(n)   == 2 ^ n
 Shr(x, n) == x \div Pow2(n)
@@ -45,7 +45,7 @@ MaxRaw     == WINDOW - SYM_BITS + 1          \* largest legal _bits of ec_enc_bi
 (* Mant16: the 16 most significant bits of rng (rng>>(l-16) in the         *)
 (* library where l >= 24; at reduced width the mantissa is padded).        *)
 (***************************************************************************)
-Mant16(rng) == LET l == Ilog(rng) IN IF l >= 16 THEN Shr(rng, l - 16) ELSE rng * Pow2(16 - l)
+Mant16(rng) == LET lg == Ilog(rng) IN IF lg >= 16 THEN Shr(rng, lg - 16) ELSE rng * Pow2(16 - lg)
 Correction == <<35733, 38967, 42495, 46340, 50535, 55109, 60097, 65535>>
 \* table-driven form (the compiled branch)
 FracOfMant(r) == LET b == (r \div 4096) - 8 IN b + (IF r > Correction[b + 1] THEN 1 ELSE 0)
@@ -162,10 +162,11 @@ Uint(e, v, ft) ==
 
 \* ec_enc_patch_initial_bits: replace the n bits at position p (from bit p upwards) of word w by v
 PatchField(w, p, n, v) == w - (Shr(w, p) % Pow2(n)) * Pow2(p) + v * Pow2(p)
-\* Deviation found by RangeCoder_mc (Inverse) and confirmed on the library: when the first output
-\* symbol is SYM_MAX it is not held in rem but counted in ext (rem = -1), and the third branch
-\* then patches the *second* symbol in val (or refuses).  PATCH_FIX = TRUE models the proposed
-\* repair (the deferred first symbol becomes the patched rem; no carry can ever reach it).
+\* PATCH_FIX = TRUE is the library since commit 85f44ce1: a first output symbol equal to SYM_MAX is not
+\* held in rem but counted in ext (rem = -1); it is moved to rem and patched there (no carry can ever
+\* reach the first symbol).  PATCH_FIX = FALSE is the code before that commit, which patched the
+\* *second* symbol in val (or refused) in this situation -- found by RangeCoder_mc (Inverse) and
+\* confirmed on the library (findings/F5_c08_patch_initial_bits.c); kept as a regression variant.
 PatchFirstDeferred(e) == e.offs = 0 /\ e.rem < 0 /\ e.ext > 0
 PatchInitial(e, v, n) ==
   LET shift == SYM_BITS - n IN
@@ -191,10 +192,10 @@ Shrink(e, size) ==
 
 \* ec_enc_done
 RECURSIVE DoneOut(_, _, _)
-DoneOut(e, end, l) ==
-  IF l > 0
-  THEN DoneOut(CarryOut(e, Shr(end, CODE_SHIFT)), (end * Pow2(SYM_BITS)) % CODE_TOP, l - SYM_BITS)
-  ELSE [e |-> e, l |-> l]
+DoneOut(e, end, nl) ==
+  IF nl > 0
+  THEN DoneOut(CarryOut(e, Shr(end, CODE_SHIFT)), (end * Pow2(SYM_BITS)) % CODE_TOP, nl - SYM_BITS)
+  ELSE [e |-> e, l |-> nl]
 RECURSIVE FlushWhole(_, _, _)
 FlushWhole(e, window, used) ==
   IF used >= SYM_BITS
@@ -374,24 +375,24 @@ ExactBits(op) ==
 \* bits covered by the leading exact ops among the coding ops (stops at the first other coding op
 \* or when SYM_BITS would be exceeded)
 RECURSIVE LeadBits(_, _, _)
-LeadBits(ops, i, acc) ==
-  IF i > Len(ops) THEN acc
-  ELSE IF ~IsCoding(ops[i]) THEN LeadBits(ops, i + 1, acc)
-  ELSE LET k == ExactBits(ops[i]) IN
-       IF k = 0 \/ acc + k > SYM_BITS THEN acc ELSE LeadBits(ops, i + 1, acc + k)
+LeadBits(opl, i, acc) ==
+  IF i > Len(opl) THEN acc
+  ELSE IF ~IsCoding(opl[i]) THEN LeadBits(opl, i + 1, acc)
+  ELSE LET k == ExactBits(opl[i]) IN
+       IF k = 0 \/ acc + k > SYM_BITS THEN acc ELSE LeadBits(opl, i + 1, acc + k)
 \* the patched top bits: a function 1..SYM_BITS -> {-1,0,1} (bit 1 = most significant)
 RECURSIVE PatchBits(_, _, _)
-PatchBits(ops, i, pb) ==
-  IF i > Len(ops) THEN pb
-  ELSE IF ops[i].k = "patch"
-       THEN LET v == ops[i].a[1]  n == ops[i].a[2] IN
-            PatchBits(ops, i + 1, [j \in 1..SYM_BITS |-> IF j <= n THEN Shr(v, n - j) % 2 ELSE pb[j]])
-       ELSE PatchBits(ops, i + 1, pb)
+PatchBits(opl, i, pb) ==
+  IF i > Len(opl) THEN pb
+  ELSE IF opl[i].k = "patch"
+       THEN LET v == opl[i].a[1]  n == opl[i].a[2] IN
+            PatchBits(opl, i + 1, [j \in 1..SYM_BITS |-> IF j <= n THEN Shr(v, n - j) % 2 ELSE pb[j]])
+       ELSE PatchBits(opl, i + 1, pb)
 NoPatch == [j \in 1..SYM_BITS |-> -1]
 MaxPatched(pb) == IF \E j \in 1..SYM_BITS : pb[j] >= 0
                   THEN CHOOSE j \in 1..SYM_BITS : pb[j] >= 0 /\ \A q \in (j + 1)..SYM_BITS : pb[q] < 0
                   ELSE 0
-PatchesWellFormed(ops) == MaxPatched(PatchBits(ops, 1, NoPatch)) <= LeadBits(ops, 1, 0)
+PatchesWellFormed(opl) == MaxPatched(PatchBits(opl, 1, NoPatch)) <= LeadBits(opl, 1, 0)
 \* value of a k-bit field whose first bit is bit number o+1, after patching
 RECURSIVE MergeBits(_, _, _, _, _)
 MergeBits(v, k, o, pb, j) ==       \* j = 1..k, most significant first
@@ -429,19 +430,19 @@ OpLegal(op) ==
 (* The composed run: encoder over ops, Done, decoder over the same ops.    *)
 (***************************************************************************)
 RECURSIVE EncRun(_, _, _, _)
-\* returns [e, tr] where tr[i] = <<tell, tell_frac, rng>> after op i
-EncRun(e, ops, i, tr) ==
-  IF i > Len(ops) THEN [e |-> e, tr |-> tr]
-  ELSE LET e1 == EncApply(e, ops[i]) IN
-       EncRun(e1, ops, i + 1, Append(tr, <<Tell(e1), TellFrac(e1), e1.rng>>))
+\* returns [e, trl] where trl[i] = <<tell, tell_frac, rng>> after op i
+EncRun(e, opl, i, trl) ==
+  IF i > Len(opl) THEN [e |-> e, trl |-> trl]
+  ELSE LET e1 == EncApply(e, opl[i]) IN
+       EncRun(e1, opl, i + 1, Append(trl, <<Tell(e1), TellFrac(e1), e1.rng>>))
 
 \* Decoder over ops.  res[i] = [v, x, ok, t] (returned value, expected value, matched, <<tell,frac,rng>>);
 \* decoding stops at the first mismatch of an enc/bin op (no table to continue with).
 RECURSIVE DecRun(_, _, _, _, _, _)
-DecRun(d, ops, i, o, pb, res) ==
-  IF i > Len(ops) THEN [d |-> d, res |-> res, complete |-> TRUE]
-  ELSE LET op == ops[i] IN
-       IF ~IsCoding(op) THEN DecRun(d, ops, i + 1, o, pb, Append(res, [v |-> -1, x |-> -1, ok |-> TRUE, t |-> <<Tell(d), TellFrac(d), d.rng>>]))
+DecRun(d, opl, i, o, pb, res) ==
+  IF i > Len(opl) THEN [d |-> d, res |-> res, complete |-> TRUE]
+  ELSE LET op == opl[i] IN
+       IF ~IsCoding(op) THEN DecRun(d, opl, i + 1, o, pb, Append(res, [v |-> -1, x |-> -1, ok |-> TRUE, t |-> <<Tell(d), TellFrac(d), d.rng>>]))
        ELSE LET k == ExactBits(op)
                 lead == o >= 0 /\ k > 0 /\ o + k <= SYM_BITS
                 x == ExpectedValue(op, IF lead THEN o ELSE -1, pb)
@@ -452,7 +453,7 @@ DecRun(d, ops, i, o, pb, res) ==
             IF ~okp THEN [d |-> d, complete |-> FALSE,
                           res |-> Append(res, [v |-> peek, x |-> x, ok |-> FALSE, t |-> <<Tell(d), TellFrac(d), d.rng>>])]
             ELSE LET a == DecApply(d, op, x, x + w) IN
-                 DecRun(a[1], ops, i + 1, o1, pb,
+                 DecRun(a[1], opl, i + 1, o1, pb,
                         Append(res, [v |-> a[2], x |-> x, ok |-> ValueMatches(op, x, a[2]),
                                      t |-> <<Tell(a[1]), TellFrac(a[1]), a[1].rng>>]))
 =============================================================================
